@@ -6,7 +6,8 @@
 (*   route    - "local" (entry node has the upstream) | "forwarded"        *)
 (*   ups      - "ok" | "absent" | "goaway" | "close-early" | "close-mid"   *)
 (*              | "slow" (slower than the configured timeout)              *)
-(*   upgrade  - the request is a WebSocket upgrade (no timeout applies)    *)
+(*   upgrade  - "none" | "websocket" (no timeout applies) | "other" (any   *)
+(*              other Upgrade header: the timeout applies)                 *)
 (* TLC enumerates every combination; Answer is written the way the code    *)
 (* decides and the invariants state the property.                          *)
 (***************************************************************************)
@@ -19,7 +20,7 @@ Init ==
   /\ known \in BOOLEAN
   /\ route \in {"local", "forwarded"}
   /\ ups \in {"ok", "absent", "goaway", "close-early", "close-mid", "slow"}
-  /\ upgrade \in BOOLEAN
+  /\ upgrade \in {"none", "websocket", "other"}
 Next == UNCHANGED vars
 Spec == Init /\ [][Next]_vars
 
@@ -31,7 +32,7 @@ Answer(k, u, g) ==
   ELSE IF u = "goaway" THEN "502"        \* Dial returns ErrGone: upstream unreachable
   ELSE IF u = "close-early" THEN "502"   \* transport error before the response headers
   ELSE IF u = "close-mid" THEN "broken"  \* headers already passed through; the body is cut
-  ELSE IF u = "slow" /\ ~g THEN "504"    \* context deadline: upstream timeout
+  ELSE IF u = "slow" /\ g # "websocket" THEN "504"    \* context deadline: upstream timeout
   ELSE "upstream"
 
 Ans == Answer(known, ups, upgrade)
@@ -39,7 +40,7 @@ Ans == Answer(known, ups, upgrade)
 PikoAnswersOnly400_502_504 == Ans \in {"400", "502", "504", "upstream", "broken"}
 MissingEndpointIs400 == ~known => Ans = "400"
 UnavailableIs502 == (known /\ ups \in {"absent", "goaway", "close-early"}) => Ans = "502"
-SlowIs504UnlessUpgrade == (known /\ ups = "slow") => (Ans = "504" <=> ~upgrade)
+SlowIs504UnlessUpgrade == (known /\ ups = "slow") => (Ans = "504" <=> upgrade # "websocket")
 NoFabricatedSuccess == Ans = "upstream" => (known /\ ups \in {"ok", "slow"})
 SameAnswerOnBothRoutes == TRUE   \* Answer does not depend on route: forwarded requests get the same mapping
 =============================================================================
